@@ -211,6 +211,24 @@ impl Report {
         for (k, v) in std::mem::take(&mut self.extra) {
             coverage.insert(k, v);
         }
+        // sanitizer overlay summaries written by scripts/overlay.sh just before this run
+        let mut overlays = Vec::new();
+        if let Ok(rd) = std::fs::read_dir(format!("{VERIF_ROOT}/evidence")) {
+            for e in rd.flatten() {
+                let name = e.file_name().to_string_lossy().to_string();
+                if name.starts_with(&format!(".overlay_{}_", self.prop)) {
+                    if let Ok(t) = std::fs::read_to_string(e.path()) {
+                        if let Ok(v) = serde_json::from_str::<Value>(&t) {
+                            overlays.push(v);
+                        }
+                    }
+                    let _ = std::fs::remove_file(e.path());
+                }
+            }
+        }
+        if !overlays.is_empty() {
+            coverage.insert("sanitizer_overlays".into(), Value::Array(overlays));
+        }
         // listed open findings that did not fire in this run (information only)
         let mut silent = Vec::new();
         for f in self.findings.open_for(&self.prop) {
